@@ -531,6 +531,10 @@ class Evaluator:
 
     def _rel(self, f, a, b):
         diff = a.v - b.v
+        if diff == 0 and self.want_d and ((a.dm or 0) != 0 or (b.dm or 0) != 0):
+            # differentiating with respect to a variable that sits exactly on the switching point of this relation:
+            # the branch-wise derivative depends on how the (equal-valued) branches are written
+            raise Undecidable("derivative at a switching point")
         if not (a.x and b.x and a.e == 0 and b.e == 0):
             gap = abs(diff)
             scale = max(abs(a.v), abs(b.v))
